@@ -14,7 +14,7 @@ RULE = ("for every graph in the box and every size limit, the real MPCC is run o
         "cliques with <= 6 members; otherwise identity, reversal, all rotations, all transpositions; edge and "
         "single-vertex classes: identity and reversal) x class interleaving (as enumerated / whole list reversed); "
         "non-trivial = graph with >= 2 cliques of >= 3 vertices sharing an edge")
-BOUNDS = {"quick": "all labelled loop-free graphs on 2..4 vertices, all 34 atlas graphs on 5 vertices (those with <= 8 edges also under a non-contiguous shuffled labelling), 6-vertex atlas graphs with >= 9 edges and <= 1500 shuffle alternatives; limits "
+BOUNDS = {"quick": "all labelled loop-free graphs on 2..4 vertices, all 34 atlas graphs on 5 vertices (those with <= 8 edges also under a non-contiguous shuffled labelling), 6-vertex atlas graphs with >= 5 edges and <= 1500 shuffle alternatives; limits "
                    "0,2..n; second call on a labelled graph for n<=4",
           "thorough": "all labelled graphs on 5 vertices; atlas graphs on 6 vertices with <= 11 edges in 2 labelings"}
 ASSUMPTIONS = ["exhaustive over orders 'among equal-sized cliques' whenever every class of >= 3-vertex cliques has "
@@ -124,7 +124,7 @@ def dense6(tier, seed):
     from networkx.generators.atlas import graph_atlas_g
     cap = 1500 if tier == "quick" else 150000
     for g in graph_atlas_g():
-        if g.number_of_nodes() == 6 and g.number_of_edges() >= (9 if tier == "quick" else 12):
+        if g.number_of_nodes() == 6 and g.number_of_edges() >= (5 if tier == "quick" else 12):
             es = sorted(tuple(sorted(e)) for e in g.edges())
             if n_alternatives(es) <= cap:
                 yield {"n": 6, "edges": es, "labels": None, "second_call": False, "limits": [[None], [3], [4]]}
